@@ -7,11 +7,13 @@ CHECKS = {
     'C05': ('vlib.chk_conf', 'C05'),
     'C06': ('vlib.chk_cores', 'C06'), 'C07': ('vlib.chk_cores', 'C07'),
     'C08': ('vlib.chk_itp', 'C08'), 'C09': ('vlib.chk_itp', 'C09'),
+    'C10': ('vlib.chk_proof', 'C10'),
     'C11': ('vlib.chk_trace', 'C11'), 'C12': ('vlib.chk_trace', 'C12'), 'C13': ('vlib.chk_trace', 'C13'), 'C26': ('vlib.chk_trace', 'C26'),
     'C14': ('vlib.chk_term', 'C14'), 'C27': ('vlib.chk_term', 'C27'), 'C28': ('vlib.chk_term', 'C28'),
     'C15': ('vlib.chk_rat', 'C15'),
     'C16': ('vlib.chk_lit', 'C16'),
     'C21': ('vlib.chk_scope', 'C21'),
+    'C22': ('vlib.chk_tsolver', 'C22'),
     'C29': ('vlib.chk_misc', 'C29'), 'C30': ('vlib.chk_misc', 'C30'),
 }
 
